@@ -360,10 +360,30 @@ SS_RULE11 = ('the same tapes with erase(pos)/erase(range)/erase-while-iterating 
              'mutating ops with the set in large state or changing state inside a call; distinct = trace hash')
 
 
+BFS_CONFIGS = ['ss_1_less_stdset_i32_std', 'ss_2_greater_flatvec_i32_amc', 'ss_3_less_stdset_ntr_std', 'ss_2_stateful_flatvec_ntr_std', 'ss_3_coarse_flatsv_i32_std',
+               'ss_1_coarse_stdset_tr_std', 'ss_3_less_stdset_mo_std', 'ss_2_less_flatvec_mo_amc']
+BFS_RULE = ('breadth-first search over the abstract states (content subset of k=N+2 keys, inline|large, content of the harness node handle) of slot 0 for 8 '
+            'configurations (N in {1,2,3}, std::set and FlatSet backings, int/TR/NTR/move-only elements) with the other operands empty or prepared (an inline '
+            'set, a large set, a sibling of another N and comparator); from the shortest tape of every reachable state every operation of the alphabet is '
+            'applied: insert/emplace/erase/find/extract of every key, every hint, erase/extract at every position, every position pair, the erase loop for '
+            'every key subset, node insertion with every hint, merge/swap/assign/compare/construct with every other operand in both directions; all '
+            'interpreter oracles on; non-trivial/distinct as for the histories; the search is complete for this alphabet and these operand preparations')
+
+
+def bfs_units(tier='thorough'):
+    us = []
+    for n in (BFS_CONFIGS if tier == 'thorough' else BFS_CONFIGS[:4]):
+        d = dict(C.SS_DEFS[n])
+        d['VF_TNAME'] = '"bfs_%s"' % n
+        us.append(enum_unit('bfs_' + n, 'targets/exh_c04.cpp', defines=d))
+    return us
+
+
 def check_C04(tier, seed, t0):
     cases, maxlen = budget(tier, (30000, 60), (400000, 80))
     names = [n for n, _ in C.SS_CONFIGS]
-    parts = [interp_part('C04', 'smallset_histories', ss_jobs(names, cases, maxlen) + ss_jobs(names[:4], cases, maxlen, stds=('20',)), seed, SS_RULE4, True)]
+    bfs = enum_part('C04', 'exhaustive_state_search', bfs_units(tier), seed, tier, BFS_RULE)
+    parts = [bfs, interp_part('C04', 'smallset_histories', ss_jobs(names, cases, maxlen) + ss_jobs(names[:4], cases, maxlen, stds=('20',)), seed, SS_RULE4, True)]
     parts += fuzz_parts('C04', tier, seed, ('ss',), True)
     return finish('C04', tier, seed, 'exploration', parts, SS_RULE4, ASSUME_COMMON, t0)
 
@@ -371,7 +391,8 @@ def check_C04(tier, seed, t0):
 def check_C11(tier, seed, t0):
     cases, maxlen = budget(tier, (30000, 60), (400000, 80))
     names = [n for n, _ in C.SS_CONFIGS]
-    parts = [interp_part('C11', 'smallset_histories', ss_jobs(names, cases, maxlen) + ss_jobs(names[:4], cases, maxlen, stds=('20',)), seed, SS_RULE11, True)]
+    bfs = enum_part('C11', 'exhaustive_state_search', bfs_units(tier), seed, tier, BFS_RULE)
+    parts = [bfs, interp_part('C11', 'smallset_histories', ss_jobs(names, cases, maxlen) + ss_jobs(names[:4], cases, maxlen, stds=('20',)), seed, SS_RULE11, True)]
     parts += fuzz_parts('C11', tier, seed, ('ss',), True)
     return finish('C11', tier, seed, 'exploration', parts, SS_RULE11, ASSUME_COMMON, t0)
 
@@ -608,7 +629,7 @@ def all_units():
         us += [vec_unit(n, s) for n in C.VEC_MULTISTD]
     us += [fs_unit(n) for n, _ in C.FS_CONFIGS]
     us += [fault_unit(n) for n, _ in FAULT_CONFIGS]
-    us += c15_units() + [race_unit()] + c13_units() + [enum_unit('exh_c10', 'targets/exh_c10.cpp'), enum_unit('exh_c08', 'targets/exh_c08.cpp'), enum_unit('static_c14', 'targets/static_c14.cpp')]
+    us += c15_units() + [race_unit()] + c13_units() + bfs_units() + [enum_unit('exh_c10', 'targets/exh_c10.cpp'), enum_unit('exh_c08', 'targets/exh_c08.cpp'), enum_unit('static_c14', 'targets/static_c14.cpp')]
     from . import c16
     us += [c16.unit(cfg, b) for cfg in c16.VEC + c16.FS + c16.SS for b in c16.QUICK_BUILDS if not (cfg in c16.SS and b[0] in ('11', '14'))]
     us += [enum_unit('exh_c12', 'targets/exh_c12.cpp'), enum_unit('growth_c18', 'targets/growth_c18.cpp', kind='plain'),
